@@ -532,3 +532,7 @@ mod tests {
         assert_eq!(matrix[(1, 1)], 2.0);
     }
 }
+
+#[cfg(feature = "pendulum_project_ntpd_rs_verif")]
+#[path = "/verif/hooks/statime-algo/matrix.rs"]
+pub mod vh_matrix;
